@@ -6,6 +6,7 @@ import (
 	"reflect"
 
 	"github.com/arr-ai/frozen"
+	"github.com/arr-ai/hash"
 	"github.com/arr-ai/wbnf/parser"
 
 	"github.com/arr-ai/arrai/pkg/fu"
@@ -75,11 +76,13 @@ func NewBool(b bool) Set {
 
 // Hash computes a hash for a genericSet.
 func (s GenericSet) Hash(seed uintptr) uintptr {
-	h := seed
+	// The members' hashes are combined with XOR so that the order does not
+	// matter; the result is then mixed so that {x} does not hash like x.
+	var h uintptr
 	for e := s.Enumerator(); e.MoveNext(); {
 		h ^= e.Current().Hash(0)
 	}
-	return h
+	return hash.Uintptr(h, seed)
 }
 
 // Equal tests two Sets for equality. Any other type returns false.
